@@ -116,8 +116,10 @@ def execute(name, state40, first_round, junk, entry="ascon_permute"):
     """Returns (result canonical state or None, list of problems)."""
     f, defs, mk, (to_l, from_l) = targets()[name]
     m = mk(program_text(name))
-    m.add_region(m.STATE_ADDR, to_l(state40), "state")
-    m.setup(m.STATE_ADDR, first_round, 0, junk)
+    # AVR objects have alignment 1: the state starts anywhere, page-straddling included (word-aligned on the other targets)
+    sa = m.STATE_ADDR + ((junk[3] & 0x1FF) if isinstance(m, emu.Avr) else 0)
+    m.add_region(sa, to_l(state40), "state")
+    m.setup(sa, first_round, 0, junk)
     problems = []
     try:
         m.run(entry)
@@ -125,7 +127,7 @@ def execute(name, state40, first_round, junk, entry="ascon_permute"):
         return None, ["interpreter stopped: %s" % e]
     problems += m.violations[:3]
     problems += m.abi_check()
-    return from_l(m.read_region(m.STATE_ADDR, 40)), problems
+    return from_l(m.read_region(sa, 40)), problems
 
 
 def gen_cases(n, sd, salt):
